@@ -172,6 +172,8 @@ impl Packing for Packer {
         Self::check_len(dat.len())?;
         fimg.desequence(dat);
         fimg.fs_type = vec![FileType::Text as u8];
+        // a text file with a non-zero aux type is a random access file, do not inherit one
+        fimg.aux = vec![0,0];
         fimg.access = vec![STD_ACCESS | DIDCHANGE];
         Ok(())
     }
@@ -215,6 +217,8 @@ impl Packing for Packer {
         fimg.desequence(&file.to_bytes());
         fimg.access = vec![STD_ACCESS | DIDCHANGE];
         fimg.fs_type = vec![FileType::Text as u8];
+        // sequential text, do not inherit a record length from earlier use of the file image
+        fimg.aux = vec![0,0];
         Ok(())
     }
     
@@ -243,6 +247,7 @@ impl Packing for Packer {
             },
             ItemType::IntegerTokens => {
                 fimg.fs_type = vec![FileType::IntegerCode as u8];
+                fimg.aux = vec![0,0];
             }
             _ => return Err(Box::new(Error::FileTypeMismatch))
         }
